@@ -236,7 +236,9 @@ class FuncTypes:
         if t is None:
             return
         if isinstance(target, ast.Name):
-            table.setdefault(target.id, t)
+            cur = table.get(target.id)
+            if cur is None or (cur[0] in ("list", "set") and cur[1] is None and t[0] == cur[0] and t[1] is not None):
+                table[target.id] = t
         elif isinstance(target, (ast.Tuple, ast.List)):
             if t[0] in ("pair", "tuple"):
                 for e, et in zip(target.elts, t[1:]):
